@@ -92,6 +92,9 @@ MUTANTS = [
     ("minor-axis error from the major-axis stderr", "AegeanTools/fitting.py",
      "             yo + (sy + err_sy) * np.sin(np.radians(theta + 90))])",
      "             yo + (sy + err_sx) * np.sin(np.radians(theta + 90))])", "C04-R8"),
+    ("correlation matrix built with the axes swapped", "AegeanTools/fitting.py",
+     "    C = np.vstack([elliptical_gaussian(x, y, 1, i, j, sx, sy, theta)",
+     "    C = np.vstack([elliptical_gaussian(x, y, 1, j, i, sx, sy, theta)", "C04-R9"),
 ]
 TWINS = [
     ("theta factor via radians", "AegeanTools/fitting.py",
@@ -186,6 +189,16 @@ def run(ctx):
     r4_r5(ctx, prog, fit, wrapper)
     r6(ctx, prog, fit, wrapper, dfun_call)
     r8_pairing(ctx, prog)
+    ctx.rule("C04-R9", "noise / covariance model: the correlation matrix is "
+             "built from the model function with the pixel positions on the "
+             "right axes, the two widths in (first, second) axis order and "
+             "the angle itself (contract sites of fitting.Cmatrix and of the "
+             "model function in fitting.py)")
+    from .. import unitrules
+    unitrules.apply(ctx, "C04-R9",
+                    lambda sh: sh.startswith("fitting."),
+                    kinds={"call"}, report_rules=set(),
+                    what="contract sites in fitting.py", floor=2)
     from .. import precision
     precision.rule(
         ctx, prog, "C04-R7",
